@@ -28,7 +28,7 @@ PROP = [('InverseMatcher returned','C01'),('RequireMatcher.skip_to_quality','C05
  ('NgramTokenizer produced query-time grams','C17'),('NgramFilter character offsets','C17'),('HashWriter(hashtype=2) raised','C20'),('varint_to_int() raised','C20'),
  ('fixed-width number encodings decoded','C20'),('GInts could not decode','C20'),('ordered hash writers rejected an empty','C20'),
  ('span queries over an Or of three or more','C01'),('SpanNot crashed once','C01'),('unordered SpanNear2 missed long spans','C01'),('SpanCondition matcher could not be copied','C11'),
- ('NUMERIC field with decimal_places raised decimal','C16'),('fully specified (microsecond) date crashed','C16'),('field that is not indexed (STORED) crashed','C16'),("recorded maximum weight could be lower",'C12'),('schema changes of a cancelled writer leaked','C07'),('in-lined postings of a field without values','C11'),('copy of a ListMatcher lost','C12'),('span queries could not be combined','C15'),('on a compound query dropped the subclass','C15'),('CoordMatcher could not be copied','C11'),('exhausted MultiMatcher raised IndexError','C11'),('child of a CoordMatcher changed the scores','C11'),('nested queries returned the NullMatcher class','C01'),('NestedParent stopped at a matching document','C01'),('NestedChildren returned the next parent','C01'),('sorting by a facet crashed with TypeError','C14'),('StoredFieldFacet(allow_overlap=True) raised','C14'),('grouped unmatched documents under None instead','C14'),('len() of collapsed results counted','C14'),('collapsed_counts did not count','C14'),('was stale after filter() and upgrade_and_extend','C14'),('with an empty other Results object removed nothing','C14'),('memory codec listed terms unsorted','C18'),('skipped a segment\'s later fields when it had no terms','C18'),('plain text codec could not list all terms','C10'),('of an absent term raised TermNotFound with codecs','C10'),('memory codec did not implement items()','C10'),('plain text codec\'s terms_from() stopped','C10'),('returned every hit when groupedby or reverse','C14'),('collapse_order=...) lost documents','C14'),('multiprocessing writer silently lost documents','C18'),('refresh() kept the old schema on reused','C03'),('created index handle shared the caller','C03'),('MultiFilter raised RuntimeError','C17'),('date parser plugin let ValueError','C16'),('total field length depended on the segment layout','C06'),('max_field_length() raised TypeError for a segment','C06'),('passed over a document after a composite sub-matcher','C12'),('Sequence queries that differ only in slop or ordered','C15'),('NestedParent.normalize() dropped','C15'),('DATETIME.parse_range() ignored the exclusive flags','C13'),('Phrase.replace() changed the words of the original','C15'),('Wildcard.normalize() treated a character class','C15'),('nested queries could not be rewritten','C15'),('pruned against a threshold on the scale of final() scores','C05'),('constant-score multi-term queries','C09'),('dropped the hits that score 0','C05'),('skip_to_quality() divided by a zero boost','C12'),('with a zero boost scored 1.0 instead of 0','C09'),("NestedParent matcher's skip_to() raised ReadTooFar",'C11'),('nested parent/child matchers could not be copied','C11'),('skip_to_quality() could loop forever','C12'),('CoordMatcher handed thresholds on the scale','C12'),('raised IndexError when syncing exhausted a multi-segment','C12'),('AsyncWriter.delete_by_query() looked the documents up','C04'),('VarBytesColumn wrote stale length/offset arrays','C08'),('iterating a CompressedBytesColumn raised','C08'),('CompressedBlockColumn raised KeyError','C08'),('list, pickle and compressed-block columns had no default','C08'),('NestedChildren.estimate_size() was the number of matching parents','C15'),('two id sets compared equal when one was a prefix','C20'),('StemFilter(cachesize=1) could not be used','C17'),('BiWordFilter raised UnboundLocalError','C17'),('BufferedWriter lost a document added while a commit','C18'),('spelling words of a field disappeared when the first document','C19'),('did not re-check the spans after skip_to_quality','C05'),('NestedChildMatcher.skip_to() could stop before the target','C11'),('of a nested (parent/child) query and another clause raised NoQualityAvailable','C01'),('writers of two RAM indexes shared one temporary directory','C06'),('collapsing under search(reverse=True) kept the worst','C14'),('grouping by a field without a column put documents without a value under one of the values','C14'),('grouping by a reversed facet of a numeric, date or boolean column','C14'),('add_reader() with a multi-segment reader failed','C06'),("a range whose start contains the letters 'to'",'C16'),('a parenthesised group nothing is left of','C16'),('opening a reader on a RAM index while a merging commit removed a segment raised NameError','C03'),('a range bound of nothing but white space','C13')]
+ ('NUMERIC field with decimal_places raised decimal','C16'),('fully specified (microsecond) date crashed','C16'),('field that is not indexed (STORED) crashed','C16'),("recorded maximum weight could be lower",'C12'),('schema changes of a cancelled writer leaked','C07'),('in-lined postings of a field without values','C11'),('copy of a ListMatcher lost','C12'),('span queries could not be combined','C15'),('on a compound query dropped the subclass','C15'),('CoordMatcher could not be copied','C11'),('exhausted MultiMatcher raised IndexError','C11'),('child of a CoordMatcher changed the scores','C11'),('nested queries returned the NullMatcher class','C01'),('NestedParent stopped at a matching document','C01'),('NestedChildren returned the next parent','C01'),('sorting by a facet crashed with TypeError','C14'),('StoredFieldFacet(allow_overlap=True) raised','C14'),('grouped unmatched documents under None instead','C14'),('len() of collapsed results counted','C14'),('collapsed_counts did not count','C14'),('was stale after filter() and upgrade_and_extend','C14'),('with an empty other Results object removed nothing','C14'),('memory codec listed terms unsorted','C18'),('skipped a segment\'s later fields when it had no terms','C18'),('plain text codec could not list all terms','C10'),('of an absent term raised TermNotFound with codecs','C10'),('memory codec did not implement items()','C10'),('plain text codec\'s terms_from() stopped','C10'),('returned every hit when groupedby or reverse','C14'),('collapse_order=...) lost documents','C14'),('multiprocessing writer silently lost documents','C18'),('refresh() kept the old schema on reused','C03'),('created index handle shared the caller','C03'),('MultiFilter raised RuntimeError','C17'),('date parser plugin let ValueError','C16'),('total field length depended on the segment layout','C06'),('max_field_length() raised TypeError for a segment','C06'),('passed over a document after a composite sub-matcher','C12'),('Sequence queries that differ only in slop or ordered','C15'),('NestedParent.normalize() dropped','C15'),('DATETIME.parse_range() ignored the exclusive flags','C13'),('Phrase.replace() changed the words of the original','C15'),('Wildcard.normalize() treated a character class','C15'),('nested queries could not be rewritten','C15'),('pruned against a threshold on the scale of final() scores','C05'),('constant-score multi-term queries','C09'),('dropped the hits that score 0','C05'),('skip_to_quality() divided by a zero boost','C12'),('with a zero boost scored 1.0 instead of 0','C09'),("NestedParent matcher's skip_to() raised ReadTooFar",'C11'),('nested parent/child matchers could not be copied','C11'),('skip_to_quality() could loop forever','C12'),('CoordMatcher handed thresholds on the scale','C12'),('raised IndexError when syncing exhausted a multi-segment','C12'),('AsyncWriter.delete_by_query() looked the documents up','C04'),('VarBytesColumn wrote stale length/offset arrays','C08'),('iterating a CompressedBytesColumn raised','C08'),('CompressedBlockColumn raised KeyError','C08'),('list, pickle and compressed-block columns had no default','C08'),('NestedChildren.estimate_size() was the number of matching parents','C15'),('two id sets compared equal when one was a prefix','C20'),('StemFilter(cachesize=1) could not be used','C17'),('BiWordFilter raised UnboundLocalError','C17'),('BufferedWriter lost a document added while a commit','C18'),('spelling words of a field disappeared when the first document','C19'),('did not re-check the spans after skip_to_quality','C05'),('NestedChildMatcher.skip_to() could stop before the target','C11'),('of a nested (parent/child) query and another clause raised NoQualityAvailable','C01'),('writers of two RAM indexes shared one temporary directory','C06'),('collapsing under search(reverse=True) kept the worst','C14'),('grouping by a field without a column put documents without a value under one of the values','C14'),('grouping by a reversed facet of a numeric, date or boolean column','C14'),('add_reader() with a multi-segment reader failed','C06'),("a range whose start contains the letters 'to'",'C16'),('a parenthesised group nothing is left of','C16'),('opening a reader on a RAM index while a merging commit removed a segment raised NameError','C03'),('a range bound of nothing but white space','C13'),('add_sortable() raised TypeError when a document has no value','C08')]
 log = subprocess.check_output(['git','-C','/repo','log','--reverse','--format=%h|%s','173ed2e..HEAD']).decode().strip().split('\n')
 p = '/verif/known_findings.json'
 d = json.load(open(p))
